@@ -18,10 +18,93 @@ extern "C" {
     fn tinfl_decompress_mem_to_heap(src: *const c_void, src_len: usize, out_len: *mut usize, flags: c_int) -> *mut c_void;
     fn tdefl_compress_mem_to_mem(out: *mut c_void, out_len: usize, src: *const c_void, src_len: usize, flags: c_int) -> usize;
     fn tdefl_compress_mem_to_heap(src: *const c_void, src_len: usize, out_len: *mut usize, flags: c_int) -> *mut c_void;
+    fn tdefl_allocate() -> *mut c_void;
+    fn tdefl_deallocate(c: *mut c_void);
+    fn tdefl_init(d: *mut c_void, f: Option<unsafe extern "C" fn(*const c_void, c_int, *mut c_void) -> i32>, user: *mut c_void, flags: c_int) -> i32;
+    fn tdefl_compress(d: *mut c_void, in_buf: *const c_void, in_size: *mut usize, out_buf: *mut c_void, out_size: *mut usize, flush: i32) -> i32;
+    fn tdefl_compress_buffer(d: *mut c_void, in_buf: *const c_void, in_size: usize, flush: i32) -> i32;
+    fn tdefl_get_adler32(d: *mut c_void) -> u32;
+    fn tdefl_get_prev_return_status(d: *mut c_void) -> i32;
     fn tinfl_decompressor_alloc() -> *mut c_void;
     fn tinfl_decompressor_free(c: *mut c_void);
     fn tinfl_decompress(r: *mut c_void, in_buf: *const u8, in_buf_size: *mut usize, out_buf_start: *mut u8, out_buf_next: *mut u8,
                         out_buf_size: *mut usize, flags: u32) -> i32;
+}
+
+unsafe extern "C" fn collect_cb(buf: *const c_void, len: c_int, user: *mut c_void) -> i32 {
+    let v = &mut *(user as *mut Vec<u8>);
+    v.extend_from_slice(std::slice::from_raw_parts(buf as *const u8, len as usize));
+    1
+}
+
+/// tdefl_init / tdefl_compress / tdefl_compress_buffer against CompressorOxide + compress().
+unsafe fn tdefl_stream(tr: &mut Tr, data: &[u8], flags: u32, callback: bool, r: &mut StdRng) {
+    use miniz_oxide::deflate::core::{compress, compress_to_output, TDEFLFlush};
+    let d = tdefl_allocate();
+    if d.is_null() {
+        return;
+    }
+    let mut collected: Vec<u8> = Vec::new();
+    let rc = if callback {
+        tdefl_init(d, Some(collect_cb), &mut collected as *mut Vec<u8> as *mut c_void, flags as c_int)
+    } else {
+        tdefl_init(d, None, std::ptr::null_mut(), flags as c_int)
+    };
+    tr.ev(json!({"ev": "c_misuse", "what": "tdefl_init must succeed (0)", "ret": if rc == 0 { -1 } else { 0 }}));
+    let mut twin = CompressorOxide::new(flags);
+    let mut tw_collected: Vec<u8> = Vec::new();
+    let mut pos = 0usize;
+    let fl_of = |f: i32| match f { 2 => TDEFLFlush::Sync, 3 => TDEFLFlush::Full, 4 => TDEFLFlush::Finish, _ => TDEFLFlush::None };
+    for _ in 0..3000 {
+        let rem = data.len() - pos;
+        let ch = match r.gen_range(0..4) { 0 => 0, 1 => r.gen_range(0..100).min(rem), _ => rem };
+        let flush = if ch == rem && r.gen_range(0..2) == 0 { 4 } else { [0, 0, 0, 2, 3][r.gen_range(0..5)] };
+        let gin = Guarded::from(&data[pos..pos + ch], r.gen());
+        if callback {
+            let before = collected.len();
+            let tbefore = tw_collected.len();
+            let st = tdefl_compress_buffer(d, gin.ptr as *const c_void, ch, flush);
+            let (ts, tc) = compress_to_output(&mut twin, &data[pos..pos + ch], fl_of(flush), |b: &[u8]| { tw_collected.extend_from_slice(b); true });
+            tr.ev(json!({"ev": "c_tdefl", "mode": "callback", "in_len": ch, "out_len": -1, "flush": flush, "status": st,
+                "consumed": ch, "written": collected.len() - before,
+                "twin": {"status": ts as i32, "consumed": tc, "written": tw_collected.len() - tbefore},
+                "data": bytes(&collected[before..]), "twin_data": bytes(&tw_collected[tbefore..]),
+                "adler": hl(tdefl_get_adler32(d) as u64), "twin_adler": hl(twin.adler32() as u64),
+                "prev": tdefl_get_prev_return_status(d), "twin_prev": twin.prev_return_status() as i32}));
+            pos += ch;
+            if st != 0 {
+                break;
+            }
+        } else {
+            let ol = match r.gen_range(0..5) { 0 => 1, 1 => r.gen_range(1..200), _ => 100_000 };
+            let gout = Guarded::new(ol, r.gen());
+            let mut in_sz = ch;
+            let mut out_sz = ol;
+            let st = tdefl_compress(d, gin.ptr as *const c_void, &mut in_sz, gout.ptr as *mut c_void, &mut out_sz, flush);
+            let mut tout = vec![0u8; ol];
+            let (ts, tc, tw) = compress(&mut twin, &data[pos..pos + ch], &mut tout, fl_of(flush));
+            let okc = in_sz <= ch && out_sz <= ol;
+            tr.ev(json!({"ev": "c_tdefl", "mode": "buffer", "in_len": ch, "out_len": ol, "flush": flush, "status": st,
+                "consumed": in_sz, "written": out_sz,
+                "twin": {"status": ts as i32, "consumed": tc, "written": tw},
+                "data": bytes(if okc { &gout.slice()[..out_sz] } else { &[] }), "twin_data": bytes(&tout[..tw.min(ol)]),
+                "adler": hl(tdefl_get_adler32(d) as u64), "twin_adler": hl(twin.adler32() as u64),
+                "prev": tdefl_get_prev_return_status(d), "twin_prev": twin.prev_return_status() as i32}));
+            if !okc {
+                break;
+            }
+            pos += in_sz;
+            if st != 0 {
+                break;
+            }
+        }
+    }
+    // misuse: null compressor, null input with a size, null output with a size
+    let mut one = 1usize;
+    let mut osz = 10usize;
+    let rc = tdefl_compress(std::ptr::null_mut(), data.as_ptr() as *const c_void, &mut one, std::ptr::null_mut(), &mut osz, 0);
+    tr.ev(json!({"ev": "c_misuse", "what": "tdefl_compress null compressor", "ret": rc}));
+    tdefl_deallocate(d);
 }
 
 /// tinfl_decompress with out_buf_start / out_buf_next arithmetic, chunked input and output budgets,
@@ -362,6 +445,10 @@ fn oneshots(o: &Opts, tr: &mut Tr, prop: &str, r: &mut StdRng) {
                     if !hp.is_null() { miniz_def_free_func(std::ptr::null_mut(), hp); }
                 }
             }
+            // tdefl streaming entry points, buffer and callback output
+            let tflags = create_comp_flags_from_zip_params(level, if i % 2 == 0 { 15 } else { -15 }, 0);
+            tdefl_stream(tr, &data, tflags, false, r);
+            tdefl_stream(tr, &data, tflags, true, r);
             // tdefl one-shot helpers (raw and zlib flags), exact-capacity destination
             let flags = create_comp_flags_from_zip_params(level, if i % 2 == 0 { 15 } else { -15 }, 0) as c_int;
             let mut hl_: usize = 0;
